@@ -19,10 +19,15 @@ PropOf(act) == CASE act.name \in {"RigidMove", "Reconcretize"} -> "C03"
                  [] act.name \in {"Rescale", "ScaleExc"} -> "C12"
                  [] OTHER -> "C13"
 ClsOf(e) == IF "i" \in DOMAIN e.act THEN (IF e.act.name = "Merge" THEN e.post.srcs[e.act.i].cls ELSE e.pre.srcs[e.act.i].cls)
-            ELSE IF Len(e.pre.srcs) = 1 THEN e.pre.srcs[1].cls ELSE "Several"
+            ELSE IF Len(e.pre.srcs) = 1 THEN e.pre.srcs[1].cls
+            ELSE IF Len(e.pre.srcs) = 2 THEN e.pre.srcs[1].cls \o "+" \o e.pre.srcs[2].cls ELSE "Several"
 RepOf(e) == IF "rep" \in DOMAIN e.act THEN e.act.rep
             ELSE IF "kind" \in DOMAIN e.act THEN e.act.kind
-            ELSE IF e.pre.sens.on THEN "sensor" ELSE "points"
+            ELSE IF "op" \in DOMAIN e.act THEN e.act.op
+            ELSE IF e.pre.sens.on THEN "sensor"
+            ELSE IF \E s \in 1..Len(e.pre.srcs) : e.pre.srcs[s].rep \notin {"", "ctor"}
+                 THEN e.pre.srcs[CHOOSE s \in 1..Len(e.pre.srcs) : e.pre.srcs[s].rep \notin {"", "ctor"}].rep
+            ELSE "points"
 DecadeOf(e) == e.kappa.decade + e.post.k
 
 IsPolygon(act) == act.name = "Convert" /\ act.rep = "Polygon"
@@ -46,6 +51,7 @@ FieldVerdict(e, j, f, dist) ==
             [] act.name \in {"Split", "SplitSeg", "Merge"} ->
                  (IF SumConclusion(ob, PathLen(e.pre), Tol12(dist)) THEN "ok" ELSE "PartitionSum")
             [] act.name = "Convert" -> (IF SumConclusion(ob, PathLen(e.pre), Tol12(dist)) THEN "ok" ELSE "Representation")
+            [] act.name = "Op" -> (IF SumConclusion(ob, PathLen(e.pre), Tol12(dist)) THEN "ok" ELSE "UseInvariance")
             [] OTHER -> "UnknownLaw"
 FieldOrder == <<"B", "H", "J">>
 \* <<clause, field>> of the first failing claimed field of observer j, then the inside/outside pattern (C12)
